@@ -223,7 +223,8 @@ class World:
 
 class Policy:
     """What to inline, what to keep uninterpreted, what to record as an effect."""
-    def __init__(self, inline=None, no_inline=(), effects=(), max_depth=8, stubs=None):
+    def __init__(self, inline=None, no_inline=(), effects=(), max_depth=8, stubs=None, atom_hint=None):
+        self.atom_hint = atom_hint    # fn(term) -> bool|None : fix the truth of some conditions instead of splitting
         self.inline = inline          # None = every in-crate fn with HIR; else predicate(path)
         self.stubs = stubs or {}      # normalised path -> fn(state, args, node) -> term
         self.no_inline = set(no_inline)
@@ -366,6 +367,12 @@ class State:
         key = ('atom', v)
         if key in self.asm:
             return self.asm[key]
+        if self.policy.atom_hint is not None:
+            h = self.policy.atom_hint(v)
+            if h is not None:
+                self.asm[key] = h
+                self.notes.append(('hint', v, h))
+                return h
         raise NeedSplit(key, [True, False], 'condition')
 
     # -------------------------------------------------------------- calls
